@@ -1030,6 +1030,17 @@ func (r *c16Run) cases() []c16Case {
 			}
 		}
 	}
+	// the WRITE path inserts new mappings in chunks of 15000 rows (and tuples in chunks of 3000): batch sizes
+	// whose count of new names sits just below, on and just above one and two chunks
+	for _, sz := range []int{14999, 15000, 15001, 30001} {
+		out = append(out, c16Case{Family: "mapbatch", N: sz, Pattern: "none"})
+	}
+	for _, sz := range []int{29999, 30001, 30002} { // 15000 / 15001 / 15001 distinct names, every name twice
+		out = append(out, c16Case{Family: "mapbatch", N: sz, Pattern: "adjacent-pairs"})
+	}
+	for _, sz := range []int{2999, 3000, 3001, 7499, 7500, 7501} { // two names per tuple
+		out = append(out, c16Case{Family: "tuples", N: sz, Pattern: "none", Kind: "mixed"})
+	}
 	for i := 0; i < n; i++ {
 		out = append(out, c16Case{Family: "query", I: i})
 	}
@@ -1187,6 +1198,7 @@ func TestC16(t *testing.T) {
 		"'any Unicode' = valid UTF-8 without NUL; NUL and invalid UTF-8 are outside the domain",
 		"names = object, subject id and subject-set object (the strings that go through the UUID mapping); namespaces and relations are stored verbatim and only checked to stay at their position",
 		"the lookup pages the DISTINCT ids of a batch by 100 in Go map iteration order, which is random per call: which id falls on the page boundary at the production page size is not controlled by the harness. Instead (deterministic): an added method calls the same unexported lookup with page sizes 1..5 on batches of 0..12 ids (every id is on a boundary for page size 1), and every batch size 95..105 / 195..205 (and 1..260 in thorough) is run with all duplicate patterns at page size 100",
+		"the insert of new mappings is chunked by 15000 rows: batches of 14999 / 15000 / 15001 / 30001 new names (and tuple batches of 7499..7501 tuples = two names each, 2999..3001 tuples for the tuple chunk) are run once each with pairwise distinct names",
 		"expected UUIDs are taken from keto's own read-only mapping of the single string (not recomputed by the harness); injectivity is judged on those ids",
 		"expand output is compared as the multiset of subjects in the tree (children order follows storage order, which the property does not fix)",
 	)
